@@ -59,6 +59,10 @@ class Finite:
             i = self.expand(f.arg(1))
             return self.select(a, i)
         args = [self.expand(f.arg(i)) for i in range(f.num_args())]
+        if f.decl().kind() == z3.Z3_OP_UNINTERPRETED and f.decl().name().startswith("card!") and args[0].sort().kind() == z3.Z3_ARRAY_SORT:
+            s = args[0].sort().domain()
+            if self.in_dom(s):  # exact cardinality on the finite universe
+                return z3.Sum(*[z3.If(self.select(args[0], c), z3.IntVal(1), z3.IntVal(0)) for c in self.dom[s.name()]])
         if f.decl().kind() == z3.Z3_OP_EQ and z3.is_array(args[0]):
             return self.array_eq(args[0], args[1])
         k = f.decl().kind()
